@@ -13,9 +13,9 @@ open Halo
 theorem regOK_init {w : World} (h : w.registry = []) : RegOK w := Halo.RegOKP.regOK_init h
 
 /-- creation preserves the invariant (fresh pair and LP token addresses) -/
-theorem regOK_createPair {w w' : World} {s : Nat} {a0 a1 : Asset} {req : Requirements} {comm : Option Nat} {np nl : Nat}
+theorem regOK_createPair {w w' : World} {s : Nat} {a0 a1 : Asset} {req : Requirements} {comm lpDec : Option Nat} {np nl : Nat}
     (hr : RegOK w) (hraw : RawOK w) (hfresh : w.pair np = none)
-    (h : facCreatePair w s a0 a1 req comm np nl = .ok w') : RegOK w' :=
+    (h : facCreatePair w s a0 a1 req comm lpDec np nl = .ok w') : RegOK w' :=
   Halo.RegOKP.regOK_createPair hr hraw hfresh h
 
 /-- decimals re-registration preserves it (C17) -/
@@ -28,7 +28,7 @@ addresses are fresh) -/
 theorem regOK_step {name : Asset → String} {w w' : World} {op : Op} {out : Out}
     (hr : RegOK w) (hraw : RawOK w)
     (hactor : ∀ s p f m, op = .pair s p f m → s ≠ w.facAddr)
-    (hfresh : ∀ s f a0 a1 req c np nl, op = .factory s f (.createPair a0 a1 req c np nl) → w.pair np = none)
+    (hfresh : ∀ s f a0 a1 req c ld np nl, op = .factory s f (.createPair a0 a1 req c ld np nl) → w.pair np = none)
     (h : exec name w op = .ok (w', out)) : RegOK w' :=
   Halo.RegOKP.regOK_step hr hraw hactor hfresh h
 
@@ -50,8 +50,8 @@ theorem lookup_sound {w : World} (hr : RegOK w) (hraw : RawOK w) {a b : Asset} {
 
 /-- creating a pair for an already registered set (either order) or for two identical assets fails;
 creation succeeds only for registered denoms and live cw20 contracts, recording their true decimals -/
-theorem create_dup_fails {w w' : World} {s : Nat} {a0 a1 : Asset} {req : Requirements} {comm : Option Nat} {np nl : Nat}
-    (h : facCreatePair w s a0 a1 req comm np nl = .ok w') :
+theorem create_dup_fails {w w' : World} {s : Nat} {a0 a1 : Asset} {req : Requirements} {comm lpDec : Option Nat} {np nl : Nat}
+    (h : facCreatePair w s a0 a1 req comm lpDec np nl = .ok w') :
     a0 ≠ a1 ∧ facLookup w a0 a1 = none ∧ facLookup w a1 a0 = none ∧
     assetDecimals w a0 = .ok ((w'.pair np).map (·.d0) |>.getD 0) ∧
     assetDecimals w a1 = .ok ((w'.pair np).map (·.d1) |>.getD 0) ∧
